@@ -25,10 +25,15 @@ func c03I(x int64) sdkmath.Int { return sdkmath.NewInt(x) }
 // repaired prefix scan (fix F1) and at boundary heights.
 func c03Directed(w *c03World, rng *rand.Rand, start c03Start, startWith c03StartWith) []*c03Runner {
 	var out []*c03Runner
-	// (0) regression scenario for the repaired opt-out-before-activation defect (fix commits e858c23, 34b4652, bf5df54):
-	// operator 2 opts into the dogfood AVS with a consensus key and opts out again in the same epoch (the key never becomes
-	// active). Before the repair every later undelegation from it panicked in the dogfood hook ("key is nil"); now the
-	// operator is a plain one: the undelegation must be accepted (mon_accept) and no hold is placed (correspondence).
+	// (0) regression scenario for the repaired opt-out-before-activation defect (fix commits e858c23, 34b4652, bf5df54, then
+	// 927219b + 5d19657): operator 2 opts into the dogfood AVS with a consensus key and opts out again in the same epoch (the
+	// key never becomes active). Before the repairs every later undelegation from it panicked in the dogfood hook ("key is
+	// nil"). Now the opt-out completion is always scheduled at current epoch + unbonding, the operator counts as "removing
+	// its key" until then, and an undelegation from it is ACCEPTED (mon_accept) and HELD by the dogfood hook (hold count 1,
+	// correspondence: the operator is listed among those for which the hook places a hold) until the opt-out matures.
+	// The epoch end that releases the hold is dogfood's (C16); here the release is the direct DecrementUndelegationHoldCount
+	// call, made after the record's completion height has passed: the record is re-queued block by block and released in the
+	// first EndBlock after the hold is gone, not at its completion height.
 	{
 		r := startWith(3, []string{"regress-C03-optout-before-activation"}, func(ctx sdk.Context) []string {
 			app := w.env.App
@@ -46,13 +51,21 @@ func c03Directed(w *c03World, rng *rand.Rand, start c03Start, startWith c03Start
 			_, ck := DetConsKey("cons-optout", 0)
 			must(app.OperatorKeeper.OptInWithConsKey(ctx, w.ops[2], w.avs, ck))
 			must(app.OperatorKeeper.OptOut(ctx, w.ops[2], w.avs))
-			return nil
+			return []string{w.opStrs[2]} // operator 2 is removing its key: the hook holds undelegations from it
 		})
 		r.deposit(0, 0, c03I(1000), false)
 		r.delegate(0, 0, 2, c03I(600))
-		r.undelegate(0, 0, 2, c03I(100), r.nextNonce(), r.newTx())
+		r.undelegate(0, 0, 2, c03I(100), r.nextNonce(), r.newTx()) // completes at 13, held
+		for i := 0; i < 12; i++ {
+			r.endBlock() // heights 3..14: at 13 and 14 the held record is re-queued
+		}
+		for _, rk := range r.recordKeys() {
+			r.holdOp(rk, false) // the opt-out has matured: dogfood releases its hold
+		}
+		r.endBlock() // height 15: released now
 		r.endBlock()
-		r.undelegate(0, 0, 2, c03I(600), r.nextNonce(), r.newTx())
+		r.undelegate(0, 0, 2, r.position(0, 0, 2), r.nextNonce(), r.newTx()) // the rest of the position: accepted, held again
+		r.endBlock()
 		out = append(out, r)
 	}
 	// (1) two stakers, different operators, same block, same nonce: one pending-index key for two records
